@@ -237,6 +237,10 @@ def class_probes(t, cls):
             if kind == "exactly-one":
                 P.must_reject("ctor", "no member present", f"{kind}:{gname}", via_ctor, none, case)
                 P.must_reject("tree", "no member present", f"{kind}:{gname}", via_tree, wire.doc(none), case)
+                # a member given as the empty string is no value (character data converts '' to None)
+                for m in members:
+                    if cm[m].kind == "elem" and cm[m].typ in ("String", "NagString"):
+                        P.must_reject("ctor", f"only {m}, as the empty string", f"{kind}:{gname}", via_ctor, with_kw(none, m, ""), case)
             else:
                 if not any(cm[m].required for m in members):
                     P.must_accept("ctor", "no member present", f"{kind}:{gname}", via_ctor, none, case)
@@ -334,7 +338,7 @@ def run(ctx):
     cov = {
         "evaluations": tally.counts.get("evaluations", 0),
         "distinct_nontrivial": tally.counts.get("violating", 0),
-        "rule": "every class x every declared/inherited constraint: required child omitted (MIN and MAXS); each pair of a group present, none of an exactly-one group, "
+        "rule": "every class x every declared/inherited constraint: required child omitted (MIN and MAXS); each pair of a group present, none of an exactly-one group (also: only an empty string), "
         "each member alone; enumeration foreign tokens (near misses and 8 tokens of other enumerations, accepted there first) and first/last token; string at limit / limit+1 (also counted in escaped ampersands; NagString warns and keeps); "
         "integer +-(10^n-1) / 10^n,-10^n,10^(n+1); non-value text per typed element; every adjacent pair of the MAXS tree swapped (unless both repeated); every "
         "non-repeatable child duplicated (adjacent and one sibling later); foreign aggregate / int / str as list member; undeclared keyword - through the keyword "
